@@ -1171,6 +1171,9 @@ fn run_exec(spec: &Spec, stub: &str) {
     for (tag, e, key) in [("term1", Some(cur), "term"), ("term2", other, "term2")] {
         if let Some(e) = e {
             mark(tag);
+            if let Some(cfg) = spec.get(if tag == "term1" { "stubcfg1" } else { "stubcfg2" }) {
+                std::fs::write(format!("{}/cfg.{}", wd, std::process::id()), cfg.replace(';', "\n")).unwrap();
+            }
             let term = spec.get(key).unwrap_or("popen").to_string();
             let r = std::panic::catch_unwind(std::panic::AssertUnwindSafe(|| run_terminator(e, &term, tag)));
             if r.is_err() {
